@@ -34,8 +34,8 @@ def ncfg (st : S) : Naive.Cfg := { ffr := st.ffr, clampParity := clampParity }
 def ocfg (st : S) : Orig.Cfg := { ffr := st.ffr, rangeCheckWithOffset := rangeCheckWithOffset }
 
 def counters : Option Naive.Upd → String
-  | none => "recv=- ; total=- ; complete=-"
-  | some u => s!"recv={u.received} ; total={u.totalFw} ; complete={u.complete}"
+  | none => "recv=- ; total=- ; complete=- ; rem=-"
+  | some u => s!"recv={u.received} ; total={u.totalFw} ; complete={u.complete} ; rem={u.remFw}"
 
 /-- the naive back-end behind the D5 line protocol -/
 def stepNaive (st : S) (toks : List String) : Option (S × String) :=
